@@ -117,6 +117,9 @@ Choices ==
          \cup {[Node(0, "var") EXCEPT !.asg = a] :
                    a \in {<<<<"a", Lit(2)>>>>, <<<<"b", Lit(1)>>>>, <<<<"a", Lit(3)>>, <<"b", Lit(0)>>>>}}
          \cup {[Node(0, "reuse") EXCEPT !.href = h, !.loc = l] : h \in ExistingIds({"leaf", "g"}), l \in {<<>>, <<<<"a", 3>>>>}}
+         \* a reuse element positioned against a later element: the instantiation is retried
+         \cup {[Node(0, "reuse") EXCEPT !.href = h, !.loc = <<<<"a", 3>>>>, !.ref = t] :
+                   h \in ExistingIds({"leaf"}), t \in (Sz + 2)..MaxNodes}
     [] Family = "order" ->
          {[Node(0, "leaf") EXCEPT !.ref = t, !.lit = l] : t \in 0..MaxNodes, l \in BOOLEAN}
          \cup {Node(0, "g")}
@@ -127,6 +130,8 @@ Choices ==
          \cup {[Node(0, "reuse") EXCEPT !.href = h, !.loc = l] :
                    h \in ExistingIds({"leaf", "g"}) \cup {Sz + 2},
                    l \in {<<>>, <<<<"a", 2>>>>, <<<<"a", 3>>, <<"b", 1>>>>}}
+         \cup {[Node(0, "reuse") EXCEPT !.href = h, !.loc = <<<<"a", 2>>>>, !.ref = t] :
+                   h \in ExistingIds({"leaf"}), t \in (ExistingIds({"leaf"}) \cup {Sz + 2, Sz + 3}) \cap (1..MaxNodes)}
          \cup {[Node(0, "var") EXCEPT !.asg = <<<<"a", Lit(0)>>>>]}
     [] Family = "looplim" ->
          \* every loop form with iteration counts around the limit, nested in one another
@@ -183,6 +188,14 @@ DocOK ==
                  /\ NodeById(doc, n.ref).ref # -1
           /\ (n.k = "reuse" /\ HasId(doc, n.href)) => NodeById(doc, n.href).k \in {"leaf", "g"}
           /\ (n.k = "reuse" /\ HasId(doc, n.href)) => n.href \in RegStatic(doc)
+          \* a positioned reuse: of a plain shape template, against a plain shape that is
+          \* always registered and is not the template itself
+          /\ (n.k = "reuse" /\ n.ref > 0) =>
+                 /\ HasId(doc, n.href) /\ NodeById(doc, n.href).k = "leaf" /\ NodeById(doc, n.href).ref = 0
+                 /\ n.ref # n.href
+                 /\ HasId(doc, n.ref) => (/\ NodeById(doc, n.ref).k = "leaf" /\ NodeById(doc, n.ref).ref = 0
+                                          /\ n.ref \in RegStatic(doc)
+                                          /\ \A sp \in SeqToSet(Flatten(doc)) : sp.k = "specs" => ~HasId(sp.ch, n.ref))
           \* reference targets are always-registered nodes
           /\ (n.k = "leaf" /\ n.ref > 0 /\ HasId(doc, n.ref)) => n.ref \in RegStatic(doc)
           \* "^" needs an unambiguous previous element: only in documents whose
